@@ -94,7 +94,9 @@ class FetchUnused(FetchStream):
             {"master": "m", "sources": src, "diff": d, "track": True},
             # the same sources spliced into a scope the way an include inside a scope does (model only)
             {"master": "m", "sources": [["w", i] for i in range(len(case["s"]))], "diff": d, "track": True},
-        ]
+        ] + ([{"master": "m", "sources": [["t", t[len(case["pre"]):]] for t in case["s"]], "diff": d, "track": True}] if case.get("pre") else [
+            # a fetch RESULT (hidden templates, instances) offered as the source of a tracked fetch (model only)
+            {"master": "m", "sources": [["r", 1]], "diff": d, "track": True, "impl_only": True}])
 
     def corpus(self):
         return [
@@ -122,6 +124,13 @@ class FetchUnused(FetchStream):
             c = fc.gen_case(rng, floats=(i % 15 == 14), profile="unused", variables=(rng.random() < 0.12))
             if i % 6 == 5:
                 c["diff"] = 1
+            if i % 5 == 3 and c["s"]:
+                # lines that move the line counter in unusual ways in front of the reported definitions (the same lines in front
+                # of every source): a quoted value continued with backslash-newline, a quoted value spanning lines, a value
+                # continued with a backslash, blank lines.  The reported lines must move by exactly the newlines added.
+                pre = rng.choice(['zq = "a\\\nb"\n', 'zq = "a\nb\nc"\n', "zq = a \\\n  b\n", "\n\n", 'zq = """x\\\n\ny"""\nzr = 1\n'])
+                c["pre"] = pre
+                c["s"] = [pre + t for t in c["s"]]
             yield c
 
     def in_domain(self, case):
@@ -134,6 +143,23 @@ class FetchUnused(FetchStream):
         # same-tree
         if (o0[0], o0[1]) != (o1[0], o1[1]) or (o0[0] == "err" and o0 != o1):
             return "same-tree: tracking on gives %s, tracking off %s" % (json.dumps(o0)[:200], json.dumps(o1)[:200])
+        if case.get("pre") and len(obs) >= 5 and o0[0] == "ok" and isinstance(obs[4], list) and obs[4][0] == "ok" \
+                and o0[2][0] == "ok" and obs[4][2][0] == "ok":
+            shift = case["pre"].count("\n")
+            with_pre = sorted([p, int(l)] for p, l in o0[2][1] if p not in ("zq", "zr"))
+            plain = sorted([p, int(l) + shift] for p, l in obs[4][2][1])
+            if with_pre != plain:
+                return "lines: with %d extra line(s) in front of every source the report is %s; without them %s (expected the same entries %d line(s) further down)" % (
+                    shift, json.dumps(o0[2][1])[:200], json.dumps(obs[4][2][1])[:200], shift)
+        if not case.get("pre") and len(obs) >= 5 and isinstance(obs[4], list) and obs[4][0] == "ok" and obs[4][2][0] == "ok" \
+                and not case.get("diff") and not has_dollar(case["s"] + [case["m"]]) and not self._dup_master(case["m"]):
+            # step 4: the result of step 1 offered as the only source: every definition of it sits at a path the master declares,
+            # so nothing may be reported (recorded exception: C06-refetch-shared-template)
+            bad = [e for e in obs[4][2][1] if not self.shared_template_entry(case["m"], e[0])]
+            if bad:
+                return "refetch: a fetch result offered as the source reports %s as unused although every definition of it names a master parameter" % json.dumps(bad)[:300]
+            if obs[4][2][1]:
+                return "refetch-shared-template: %s" % json.dumps(obs[4][2][1])[:200]
         if o2 != o0:
             return "stale: a second tracked fetch on the same source objects gives %s, the first gave %s" % (
                 json.dumps(o2)[:200], json.dumps(o0)[:200])
@@ -161,6 +187,29 @@ class FetchUnused(FetchStream):
                 return None
         return "exact: reported %s, the property's formula gives %s" % (json.dumps(got)[:300], json.dumps(want)[:300])
 
+    def shared_template_entry(self, mtext, path):
+        """the path passes through a .multiple object nested (at any depth) inside a .multiple scope of the master: the part of a
+        hidden template copy that is shared with the master (shallow copy)"""
+        try:
+            objs = self.fp.parse(input_string=mtext).objects
+        except BaseException as e:  # noqa
+            fc.reraise_control(e)
+            return False
+        nmult = 0
+        comps = path.split(".")
+        for i, c in enumerate(comps):
+            nxt = [o for o in objs if o.name == c and not o.is_disabled]
+            if not nxt:
+                return False
+            o = nxt[0]
+            nmult += 1 if o.multiple else 0
+            if i == len(comps) - 1:
+                return bool(o.is_definition) and nmult >= 2
+            if not o.is_scope:
+                return False
+            objs = o.objects
+        return False
+
     def tag(self, case, o):
         t = super().tag(case, o)
         if isinstance(o, list) and o and isinstance(o[0], list) and o[0][0] == "ok" and o[0][2][0] == "ok":
@@ -170,6 +219,8 @@ class FetchUnused(FetchStream):
 
 
 def match_finding(finding, failure):
+    if finding.get("id") == "C06-refetch-shared-template":
+        return str(failure.get("what", "")).startswith("refetch-shared-template:")
     return False
 
 
